@@ -721,12 +721,18 @@ func vModelCase(t *testing.T, r *vrng, ci int, backend string, mk VMakeDB) *vCas
 					if r.intn(10) == 0 {
 						t2 = total + 1 // mismatching set total
 					}
+					a2 := addr
+					if s > 0 && r.intn(6) == 0 {
+						// a later shard of an otherwise consistent set
+						// carries another payment address
+						a2 = 1 + r.intn(naddr)
+					}
 					h := &vHtlc{Hash: v.Hash, Amt: a, Expiry: expiryFor(v),
-						Mpp: []int64{int64(addr), int64(t2)}}
+						Mpp: []int64{int64(a2), int64(t2)}}
 					if r.intn(12) == 0 {
 						// blinded path instead of MPP record
 						h.Mpp = nil
-						pa := addr
+						pa := a2
 						h.Path = &pa
 						h.Total = t2
 					}
